@@ -102,7 +102,7 @@ fn rand_arg(rng: &mut Rng, kind: usize) -> String {
         1 => format!("{}", rng.below(60000)),
         2 => format!("0x{:x}", rng.below(60000)),
         3 => format!("0b{:b}", rng.below(255)),
-        4 => ["word [bx]", "word [bx,si,2]", "word [bp,6]", "word [si]", "WORD [100]", "word [bx,di]"][rng.below(6)].to_string(),
+        4 => ["word [bx]", "word [bx,si,2]", "word [bp,6]", "word [si]", "WORD [100]", "word [bx,di]", "word ds[bp]", "word DS[bp,2]", "word ds[bp,si]", "word es[di]", "word ss[bx]", "word cs[si,4]", "word ds[bx]", "word es[100]"][rng.below(14)].to_string(),
         _ => "dlabel".to_string(),
     }
 }
